@@ -182,6 +182,10 @@ def _validate_pandas(
 ) -> pd.DataFrame:
     warnings.filterwarnings("ignore", category=FutureWarning)
 
+    # Work on a shallow copy: the frame may be the caller's own object (validate_dataset),
+    # which must not get its columns renamed, added or rewritten.
+    data = data.copy(deep=False)
+
     # Strip UTF-8 BOM from column names (e.g. DataFrames read from BOM-encoded CSVs)
     bom_stripped = [str(col).removeprefix("\ufeff") for col in data.columns]
     data.columns = pd.Index(bom_stripped)
